@@ -1477,6 +1477,34 @@ Proof.
   intros y b Hy Hb. exfalso. apply Hy. unfold app_of in Hb. rewrite <- (get_app_name _ _ _ Hb). apply in_map. eapply get_app_In; exact Hb.
 Qed.
 
+(** primitive transitions never create or drop instance records *)
+Lemma pstep_names cA cB : pstep cA cB -> map a_name (c_apps cB) = map a_name (c_apps cA).
+Proof.
+  intros Hs. destruct Hs.
+  - destruct H as (_ & _ & _ & H4 & _). rewrite H4. reflexivity.
+  - unfold prim_put. cbn [c_upd_app c_upd_srv c_apps set]. apply upd_app_names. intros z. destruct (a_expiry z); reflexivity.
+  - unfold prim_remove. cbn [c_upd_app c_upd_srv c_apps set]. apply upd_app_names. reflexivity.
+  - cbn [c_upd_app c_apps set]. apply upd_app_names. intros z. apply (proj1 (H z)).
+  - cbn [c_upd_app c_apps set]. apply upd_app_names. reflexivity.
+  - unfold release_identity. destruct (get_app aname (c_apps c)) as [z|]; [|reflexivity].
+    destruct (group_of c z) as [[g grp]|]; [|reflexivity]. destruct (a_identity z); [|reflexivity].
+    cbn [c_upd_app c_apps set]. apply upd_app_names. reflexivity.
+  - unfold acquire_identity. destruct (get_app aname (c_apps c)) as [z|]; [|reflexivity].
+    destruct (group_of c z) as [[g grp]|]; [|reflexivity]. destruct (a_identity z); [reflexivity|].
+    destruct (g_avail grp); [reflexivity|]. cbn [fst c_upd_app c_apps set]. apply upd_app_names. reflexivity.
+  - cbn [c_upd_app c_apps set]. apply upd_app_names. reflexivity.
+Qed.
+Lemma psteps_names cA cB : psteps cA cB -> map a_name (c_apps cB) = map a_name (c_apps cA).
+Proof. induction 1 as [cA cB Hs|cA|cA cB cC H1 IH1 H2 IH2]; [apply pstep_names; exact Hs|reflexivity|congruence]. Qed.
+Lemma names_none c c' x : map a_name (c_apps c') = map a_name (c_apps c) -> app_of c x = None -> app_of c' x = None.
+Proof.
+  intros Hn Hy. destruct (app_of c' x) as [b|] eqn:Eb; [|reflexivity]. exfalso.
+  unfold app_of in Hy, Eb. apply get_app_none_notin in Hy. apply Hy. rewrite <- Hn.
+  rewrite <- (get_app_name _ _ _ Eb). apply in_map. eapply get_app_In; exact Eb.
+Qed.
+Lemma psteps_none c c' x : psteps c c' -> app_of c x = None -> app_of c' x = None.
+Proof. intros Hp. apply names_none. apply psteps_names. exact Hp. Qed.
+
 (** ** summary of the four phases *)
 Theorem pre_phases_spec c : Acct c -> Ident c ->
   AMI (pre_phases c) /\ all_touched c (pre_phases c) /\ psteps c (pre_phases c) /\
